@@ -324,12 +324,32 @@ NT = 32
 def tasks(tier, seed):
     return [{'id': f'c03-A-{i:02d}', 'tier': tier, 'seed': seed, 'slice': [i, 24], 'part': 'A'} for i in range(24)] + \
            [{'id': f'c03-B-{i:02d}', 'tier': tier, 'seed': seed, 'slice': [i, 8], 'part': 'B'} for i in range(8)] + \
-           [{'id': 'c03-X-fraction', 'tier': tier, 'seed': seed, 'slice': [0, 1], 'part': 'X'}]
+           [{'id': 'c03-X-fraction', 'tier': tier, 'seed': seed, 'slice': [0, 1], 'part': 'X'}, {'id': 'c03-N-numbers', 'tier': tier, 'seed': seed, 'slice': [0, 1], 'part': 'N'}]
+
+
+NUM_SRC = '''
+def run(v, O):
+    out = []
+    for text in v.cases:
+        q = Quantity(1, text)
+        want, wdims, _ = ref_units(text)
+        out.append((f'{text}: factor (number times table entries)', O.eq(q.value() * q.baseunits.magnitude, want, 1e-12)))
+        out.append((f'{text}: dimension vector', O.same(lib_dims(q), wdims)))
+    for text in v.bad:
+        out.append((f'{text}: rejected', O.raises(lambda text=text: Quantity(1, text))))
+    return out
+'''
+NUM_CASES = ['-2*m', '-2.5e-3*km', 'kg/(-4*s)', '-1*[c]2', '-2*-3*m', '1e3*g', '-0.5*cm2', '2.5*m/(4*s2)', '-3*J/(2*-6*mol)', '1e-3*kg*m2/s2', '0.5*[k_B]*K', '-1e2*%']
+NUM_BAD = ['-m', '2**m', '--2*m', '2*', '*m']
 
 
 def run_task(task):
     if task['part'] == 'A':
         return run_resolve(task)
+    if task['part'] == 'N':
+        from vf.scen import Scenario
+        sc = Scenario('numeric-factors', NUM_SRC, {}, consts={'cases': NUM_CASES, 'bad': NUM_BAD}, preamble='from scinumtools.units import Quantity\n' + unitkit.REF_SRC, what='signed and exponent-form numeric factors inside unit expressions (concrete)', samples=1)
+        return run_scenarios([sc], contextlib.nullcontext, timeout_ms=20000, seed=task['seed'])
     if task['part'] == 'X':
         from vf import xh
         return xh.to_task_result('harness_xh/c03_fraction.py', 'harness_xh.c03_fraction', 'C03', timeout=40 if task['tier'] == 'quick' else 120, jobs=4)
